@@ -431,10 +431,8 @@ class PageLayout(object):
         bottom_margin = ET.SubElement(page, "BottomMargin")
         print_space = ET.SubElement(page, "PrintSpace")
 
-        print_space_height = 0
-        print_space_width = 0
-        print_space_vpos = self.page_size[0]
-        print_space_hpos = self.page_size[1]
+        # bounding box of the text blocks (an empty box at the origin when the page has none)
+        print_space_top = print_space_left = print_space_bottom = print_space_right = 0
 
         for b, block in enumerate(self.regions):
             text_block = ET.SubElement(print_space, "TextBlock")
@@ -446,12 +444,14 @@ class PageLayout(object):
             text_block.set("VPOS", str(int(text_block_vpos)))
             text_block.set("HPOS", str(int(text_block_hpos)))
 
-            print_space_height = max([print_space_vpos + print_space_height, text_block_vpos + text_block_height])
-            print_space_width = max([print_space_hpos + print_space_width, text_block_hpos + text_block_width])
-            print_space_vpos = min([print_space_vpos, text_block_vpos])
-            print_space_hpos = min([print_space_hpos, text_block_hpos])
-            print_space_height = print_space_height - print_space_vpos
-            print_space_width = print_space_width - print_space_hpos
+            if b == 0:
+                print_space_top, print_space_left = text_block_vpos, text_block_hpos
+                print_space_bottom, print_space_right = text_block_vpos + text_block_height, text_block_hpos + text_block_width
+            else:
+                print_space_top = min([print_space_top, text_block_vpos])
+                print_space_left = min([print_space_left, text_block_hpos])
+                print_space_bottom = max([print_space_bottom, text_block_vpos + text_block_height])
+                print_space_right = max([print_space_right, text_block_hpos + text_block_width])
 
             for l, line in enumerate(block.lines):
                 if not line.transcription or line.transcription.strip() == "":
@@ -564,6 +564,10 @@ class PageLayout(object):
                 if line.transcription_confidence is not None:
                     if line.transcription_confidence < min_line_confidence:
                         text_block.remove(text_line)
+        print_space_vpos, print_space_hpos = print_space_top, print_space_left
+        print_space_height = print_space_bottom - print_space_top
+        print_space_width = print_space_right - print_space_left
+
         top_margin.set("HEIGHT", "{}" .format(int(print_space_vpos)))
         top_margin.set("WIDTH", "{}" .format(int(self.page_size[1])))
         top_margin.set("VPOS", "0")
